@@ -734,6 +734,60 @@ def check_acyclic(ck: Checker, R='C02.ACYC'):
     ck.assume('connect_circuit(right_connect=True) cannot close a cycle when attached gates only reference attached gates and base connectors are inputs (paper argument)')
 
 
+def check_order_list(ck: Checker, R='C02.ORDER'):
+    """order_inputs / order_outputs store order_list(given, current): folded over all small lists it must
+    return a permutation of `current` that starts with `given` (multiset inclusion), else raise."""
+    import collections
+    import itertools
+    from ..interp import Interp, InterpRaise, RepoFunc
+    repo = ck.repo
+    um = repo.mod('cirbo.core.circuit.utils')
+    fn = um.func('order_list')
+    it = Interp(repo)
+    f = RepoFunc(it, um, fn)
+    probs = []
+    n = 0
+    olds = [list(x) for k in range(4) for x in itertools.product('abc', repeat=k)]
+    news = [list(x) for k in range(4) for x in itertools.product('abz', repeat=k)]
+    for old in olds:
+        for new in news:
+            n += 1
+            it.steps = 0
+            co, cn = collections.Counter(old), collections.Counter(new)
+            legal = all(cn[k] <= co[k] for k in cn)
+            old_before = list(old)
+            try:
+                res = f(list(new), old)
+            except InterpRaise as e:
+                if legal or e.exc_name != 'CircuitGateIsAbsentError':
+                    probs.append(f'order_list({new}, {old}) raises {e.exc_name}')
+                continue
+            if old != old_before:
+                probs.append(f'order_list({new}, {old_before}) modified its second argument')
+            if not legal:
+                probs.append(f'order_list({new}, {old}) = {res}: accepted an ordering that is not a sub-multiset of the current list')
+                continue
+            rest = list(old)
+            for x in new:
+                rest.remove(x)
+            if res != new + rest:
+                probs.append(f'order_list({new}, {old}) = {res}, expected {new + rest}')
+            if len(probs) > 4:
+                break
+        if len(probs) > 4:
+            break
+    ck.check(not probs, R, um, fn, f'order_list returns the given prefix followed by the remaining elements in their old order, or raises ({n} list pairs incl. duplicates and foreign labels)',
+             '; '.join(probs[:3]), construct='order_list semantics')
+    m = repo.mod(CIRCUIT)
+    for name, field in (('order_inputs', '_inputs'), ('order_outputs', '_outputs')):
+        g = m.func(f'Circuit.{name}')
+        from ..core import body_without_doc
+        b = body_without_doc(g)
+        p = g.args.args[1].arg
+        ck.check(len(b) == 2 and norm(b[0]) == f'self.{field} = order_list({p}, self.{field})' and norm(b[1]) == 'return self', R, m, g,
+                 f'{name} stores order_list(given, current {field[1:]})', f'body `{norm(b[0]) if b else None}`', construct=f'{name} body')
+
+
 def run(ck: Checker):
     repo = ck.repo
     den = Denotations(repo)
@@ -752,5 +806,7 @@ def run(ck: Checker):
     check_copy(ck, eff)
     ck.floor('C02.COPY', 15)
     check_acyclic(ck)
-    ck.assume('top_sort/dfs/order_list are correct (C20 / undecided clause)')
+    ck.rule('C02.ORDER', 'order_inputs/order_outputs: the stored list is a permutation of the current one (order_list folded over all small list pairs)')
+    check_order_list(ck)
+    ck.assume('top_sort/dfs are correct (C20 / undecided clause)')
     ck.assume('labels are only stored and compared for equality by the folded primitives (data independence)')
